@@ -7,54 +7,56 @@ import TB.Spec.ExecSpec
 import TB.Lemmas.Exec
 import TB.Lemmas.ExecTerm
 namespace TB.Exec
+open TB.Exec.Term
 
 /-- the reference `balance` meets the specification (so the theorems are not vacuous) -/
-theorem C05_balanceRef_spec : BalSpec balanceRef := by
-  sorry
+theorem C05_balanceRef_spec : BalSpec balanceRef :=
+  balanceRef_spec
 
 /-- never lost, never duplicated: in every reachable state the solved items, the items in hand and the queued
     items are together exactly the initial items -/
 theorem C05_once (bal : Bal) (hb : BalSpec bal) (qs : List (List Nat)) (s : ExSt)
     (h : Reach bal (init qs) s) :
-    List.Perm (s.solved ++ inHand s ++ s.queues.flatten) qs.flatten := by
-  sorry
+    List.Perm (s.solved ++ inHand s ++ s.queues.flatten) qs.flatten :=
+  (inv_reach hb h).cons
 
 /-- lock discipline: a queue lock held by a worker other than its owner means the holder also holds the state
     lock; and a worker beyond `active_threads` whose queue is not locked by a rebalancer has an empty queue -/
 theorem C05_lockorder (bal : Bal) (hb : BalSpec bal) (qs : List (List Nat)) (s : ExSt)
     (h : Reach bal (init qs) s) :
-    ∀ j holder, s.qlock[j]? = some (some holder) → holder ≠ j → s.stateLock = some holder := by
-  sorry
+    ∀ j holder, s.qlock[j]? = some (some holder) → holder ≠ j → s.stateLock = some holder :=
+  (inv_reach hb h).lockorder
 
 /-- no deadlock: as long as some worker has not finished, some worker can move -/
 theorem C05_deadlock_free (bal : Bal) (hb : BalSpec bal) (qs : List (List Nat)) (s : ExSt)
     (h : Reach bal (init qs) s) (hnd : allDone s = false) :
-    ∃ i s', step bal s i = some s' := by
-  sorry
+    ∃ i s', step bal s i = some s' :=
+  (inv_reach hb h).deadlock_free hnd
 
 /-- when every worker has finished, every item has been solved exactly once, nothing is queued or in hand, and
     no lock is held -/
 theorem C05_final (bal : Bal) (hb : BalSpec bal) (qs : List (List Nat)) (s : ExSt)
     (h : Reach bal (init qs) s) (hd : allDone s = true) :
-    List.Perm s.solved qs.flatten ∧ s.queues.flatten = [] ∧ s.stateLock = none ∧ ∀ (j h' : Nat), s.qlock[j]? ≠ some (some h') := by
-  sorry
+    List.Perm s.solved qs.flatten ∧ s.queues.flatten = [] ∧ s.stateLock = none ∧ ∀ (j h' : Nat), s.qlock[j]? ≠ some (some h') :=
+  (inv_reach hb h).final hd
 
 /-- every step strictly decreases the lexicographic measure (unsolved, queued, active-and-empty, Σ ranks) -/
 theorem C05_measure_decreases (bal : Bal) (hb : BalSpec bal) (qs : List (List Nat)) (s s' : ExSt) (i : Nat)
     (hr : Reach bal (init qs) s) (hs : step bal s i = some s') :
-    mlt (measure s') (measure s) := by
-  sorry
+    mlt (measure s') (measure s) :=
+  measure_decreases_reach bal hb qs s s' i hr hs
 
 /-- termination: no infinite execution — the step relation restricted to reachable states is well-founded -/
 theorem C05_terminates (bal : Bal) (hb : BalSpec bal) (qs : List (List Nat)) :
-    WellFounded (fun s' s => Reach bal (init qs) s ∧ ∃ i, step bal s i = some s') := by
-  sorry
+    WellFounded (fun s' s => Reach bal (init qs) s ∧ ∃ i, step bal s i = some s') :=
+  terminates_of_decreases bal qs (fun s s' i hr hs => C05_measure_decreases bal hb qs s s' i hr hs)
 
 /-- `thread_count = max(min(items, threads), 1)`: at least one worker, never more workers than items (unless there
     is a single worker), whatever `--threads` says (0 included) -/
 theorem C05_thread_count (items threads : Nat) :
     1 ≤ threadCount items threads ∧ (threadCount items threads ≤ max items 1) ∧ (threads ≥ 1 → threadCount items threads ≤ threads) := by
-  sorry
+  unfold threadCount
+  omega
 
 -- non-vacuity: a concrete reachable state (two workers, three items) and a concrete run to completion
 example : allDone (exec balanceRef (init [[1, 2], [3]])
